@@ -100,9 +100,9 @@ theorem acts_false_clear (cfg : Cfg) (S : Name → Prop) (hmd : cfg.maxDepth = n
       · rename_i s1 hr1
         simp only [Bool.false_and, Bool.false_eq_true, if_false] at h
         have hnone := setupProd_none_of_declared cfg.db s.env hd n ((hunf _ _ _ _ _ _ _ _).2 hr1)
-        obtain ⟨hc2, hb2⟩ := ih hl' ⟨s.env, s.aliases, s.unaliased, s1.already⟩ s' hw hd h
+        obtain ⟨hc2, hb2⟩ := ih hl' ⟨s.env, s.aliases, s.unaliased, s1.already, s1.cache⟩ s' hw hd h
         obtain ⟨_, hs2, _, _⟩ := acts_false_spec cfg rec hun (fun _ => True) depth false vro d rest
-          ⟨s.env, s.aliases, s.unaliased, s1.already⟩ s' hw (noResidue_true _) h
+          ⟨s.env, s.aliases, s.unaliased, s1.already, s1.cache⟩ s' hw (noResidue_true _) h
         refine ⟨hc2, ?_⟩
         intro n' o' j' v' x' t' kl' hm
         simp only [List.mem_cons] at hm
@@ -152,7 +152,7 @@ theorem setup_false_clear (cfg : Cfg) (S : Name → Prop) (hmd : cfg.maxDepth = 
         (fun depth noRec vro n ver vexpr s s' => setup_unfail cfg k depth noRec vro n ver vexpr s s')
         (fun depth noRec vro n ver vexpr s s' hw h => setup_false_unsets cfg k depth noRec vro n ver vexpr s s' hw h)
         ih depth vro d (d.actions cfg.exact) hl
-        ⟨{ s.env with dirs := aunset s.env.dirs d.name, recs := aunset s.env.recs d.name }, s.aliases, s.unaliased, s.already⟩
+        ⟨{ s.env with dirs := aunset s.env.dirs d.name, recs := aunset s.env.recs d.name }, s.aliases, s.unaliased, s.already, s.cache⟩
         s' (hw.of_sub hs0) (hd.of_sub hs0) h
       intro p v hp hr hn m o j x y t kl hline
       by_cases hpd : p = d.name
@@ -231,12 +231,12 @@ theorem acts_true_supp (cfg : Cfg) (S : Name → Prop) (top : Name) (hcl : Close
           have h1 : AlreadyOK cfg.db s1.already := hal _ _ _ _ _ _ _ _ _ ha (by rw [hr1]; rfl)
           split at h
           · cases h
-          · exact ih hl' ⟨s.env, s.aliases, s.unaliased, s1.already⟩ s' h1 hd hs hr h
+          · exact ih hl' ⟨s.env, s.aliases, s.unaliased, s1.already, s1.cache⟩ s' h1 hd hs hr h
         · rename_i s1 hr1
           have h1 : AlreadyOK cfg.db s1.already := hal _ _ _ _ _ _ _ _ _ ha (by rw [hr1]; rfl)
           split at h
           · cases h
-          · exact ih hl' ⟨s.env, s.aliases, s.unaliased, s1.already⟩ s' h1 hd hs hr h
+          · exact ih hl' ⟨s.env, s.aliases, s.unaliased, s1.already, s1.cache⟩ s' h1 hd hs hr h
     · have hnd : ∀ n o j v x t kl, a ≠ .dep n o j v x t kl := fun n o j v x t kl e => hdep ⟨n, o, j, v, x, t, kl, e⟩
       rw [acts_cons_nondep rec cfg true depth noRec vro d a rest s hnd] at h
       have hrecs : ∀ n, (a.apply true d.prod s).env.rec? n = s.env.rec? n := fun n => apply_rec? true d.prod a s n
@@ -312,10 +312,13 @@ theorem setup_supp (cfg : Cfg) (rank : Name → Nat) (hdag : NameDag cfg.db rank
     | found d reason =>
       rw [hres] at h
       obtain ⟨hc, hname⟩ := resolve_spec cfg.db cfg.path cfg.keep s.already ha n ver vexpr depth _ _ _ _ hres
-      have henv := register_env cfg depth d reason s
+      try simp only at h
+      obtain ⟨hc, hname⟩ := pickDecl_spec cfg.db s.cache d _ hc hname
+      revert h hc hname; generalize pickDecl cfg.db s.cache d = d; intro h hc hname
+      have henv := register_env cfg depth d reason (s.afterResolve cfg depth vro n ver vexpr)
       have := install_supp cfg rank hdag S top hcl hone (setup cfg k) (setup_alOK cfg k) ih depth noRec vro d reason hc
-        (by rw [hname]; exact hSn) (register cfg depth d reason s) s' (by rw [henv, hname]; exact hask)
-        (by rw [henv, hname]; exact hdepth) (register_already cfg depth d reason s ha hc) (by rw [henv]; exact hd)
+        (by rw [hname]; exact hSn) (register cfg depth d reason (s.afterResolve cfg depth vro n ver vexpr)) s' (by rw [henv, hname]; exact hask)
+        (by rw [henv, hname]; exact hdepth) (register_already cfg depth d reason (s.afterResolve cfg depth vro n ver vexpr) ha hc) (by rw [henv]; exact hd)
         (by rw [henv]; exact hs) h
       rw [henv] at this; exact this
 
@@ -454,12 +457,12 @@ theorem acts_true_supp2 (cfg : Cfg) (rank : Name → Nat) (S : Name → Prop) (t
           have h1 : AlreadyOK cfg.db s1.already := hrec.already _ _ _ _ _ _ _ _ _ ha (by rw [hr1]; rfl)
           split at h
           · cases h
-          · exact ih hl' hrank' ⟨s.env, s.aliases, s.unaliased, s1.already⟩ s' h1 hw hn hd hs hr h
+          · exact ih hl' hrank' ⟨s.env, s.aliases, s.unaliased, s1.already, s1.cache⟩ s' h1 hw hn hd hs hr h
         · rename_i s1 hr1
           have h1 : AlreadyOK cfg.db s1.already := hrec.already _ _ _ _ _ _ _ _ _ ha (by rw [hr1]; rfl)
           split at h
           · cases h
-          · exact ih hl' hrank' ⟨s.env, s.aliases, s.unaliased, s1.already⟩ s' h1 hw hn hd hs hr h
+          · exact ih hl' hrank' ⟨s.env, s.aliases, s.unaliased, s1.already, s1.cache⟩ s' h1 hw hn hd hs hr h
     · have hnd : ∀ n o j v x t kl, a ≠ .dep n o j v x t kl := fun n o j v x t kl e => hdep ⟨n, o, j, v, x, t, kl, e⟩
       rw [acts_cons_nondep rec cfg true depth false vro d a rest s hnd] at h
       have hrecs : ∀ n, (a.apply true d.prod s).env.rec? n = s.env.rec? n := fun n => apply_rec? true d.prod a s n
@@ -553,11 +556,14 @@ theorem setup_supp2 (cfg : Cfg) (rank : Name → Nat) (hdag : NameDag cfg.db ran
     | found d reason =>
       rw [hres] at h
       obtain ⟨hc, hname⟩ := resolve_spec cfg.db cfg.path cfg.keep s.already ha n ver vexpr depth _ _ _ _ hres
-      have henv := register_env cfg depth d reason s
+      try simp only at h
+      obtain ⟨hc, hname⟩ := pickDecl_spec cfg.db s.cache d _ hc hname
+      revert h hc hname; generalize pickDecl cfg.db s.cache d = d; intro h hc hname
+      have henv := register_env cfg depth d reason (s.afterResolve cfg depth vro n ver vexpr)
       have := install_supp2 cfg rank hdag S top hcl hnj (setup cfg k) (setup_recOK cfg rank hdag k)
         (setup_false_clear cfg S hmd hcl hnj k) ih depth vro d reason hc (by rw [hname]; exact hSn)
-        (register cfg depth d reason s) s' (by rw [henv, hname]; exact hask)
-        (register_already cfg depth d reason s ha hc) (by rw [henv]; exact hw) (by rw [henv]; exact hn)
+        (register cfg depth d reason (s.afterResolve cfg depth vro n ver vexpr)) s' (by rw [henv, hname]; exact hask)
+        (register_already cfg depth d reason (s.afterResolve cfg depth vro n ver vexpr) ha hc) (by rw [henv]; exact hw) (by rw [henv]; exact hn)
         (by rw [henv]; exact hd) (by rw [henv]; exact hs) h
       exact this
 
@@ -623,7 +629,7 @@ theorem acts_true_req (cfg : Cfg) (S : Name → Prop) (hmd : cfg.maxDepth = none
         split at h
         · cases h
         · rename_i hopt
-          obtain ⟨hq2, hg2, hd2, hdone2⟩ := ih hl' ⟨s.env, s.aliases, s.unaliased, s1.already⟩ s' h1 hd hq h
+          obtain ⟨hq2, hg2, hd2, hdone2⟩ := ih hl' ⟨s.env, s.aliases, s.unaliased, s1.already, s1.cache⟩ s' h1 hd hq h
           refine ⟨hq2, hg2, hd2, ?_⟩
           intro m j' x' y' t' kl' hm
           simp only [List.mem_cons] at hm
@@ -635,7 +641,7 @@ theorem acts_true_req (cfg : Cfg) (S : Name → Prop) (hmd : cfg.maxDepth = none
         split at h
         · cases h
         · rename_i hopt
-          obtain ⟨hq2, hg2, hd2, hdone2⟩ := ih hl' ⟨s.env, s.aliases, s.unaliased, s1.already⟩ s' h1 hd hq h
+          obtain ⟨hq2, hg2, hd2, hdone2⟩ := ih hl' ⟨s.env, s.aliases, s.unaliased, s1.already, s1.cache⟩ s' h1 hd hq h
           refine ⟨hq2, hg2, hd2, ?_⟩
           intro m j' x' y' t' kl' hm
           simp only [List.mem_cons] at hm
@@ -732,10 +738,13 @@ theorem setup_req (cfg : Cfg) (S : Name → Prop) (hmd : cfg.maxDepth = none) (h
     | found d reason =>
       rw [hres] at h
       obtain ⟨hc, hname⟩ := resolve_spec cfg.db cfg.path cfg.keep s.already ha n ver vexpr depth _ _ _ _ hres
-      have henv := register_env cfg depth d reason s
+      try simp only at h
+      obtain ⟨hc, hname⟩ := pickDecl_spec cfg.db s.cache d _ hc hname
+      revert h hc hname; generalize pickDecl cfg.db s.cache d = d; intro h hc hname
+      have henv := register_env cfg depth d reason (s.afterResolve cfg depth vro n ver vexpr)
       have := install_req cfg S hmd hcl hnj hone (setup cfg k) (setup_alOK cfg k) ih Y depth vro d reason hc
-        (by rw [hname]; exact hSn) (register cfg depth d reason s) s' (by rw [henv, hname]; exact hdepth)
-        (register_already cfg depth d reason s ha hc) (by rw [henv]; exact hd) (by rw [henv]; exact hq) h
+        (by rw [hname]; exact hSn) (register cfg depth d reason (s.afterResolve cfg depth vro n ver vexpr)) s' (by rw [henv, hname]; exact hdepth)
+        (register_already cfg depth d reason (s.afterResolve cfg depth vro n ver vexpr) ha hc) (by rw [henv]; exact hd) (by rw [henv]; exact hq) h
       rw [henv, hname] at this; exact this
 
 end EupsModel.Setup
